@@ -11,23 +11,34 @@
      case on the real iora::web::Assets (leaf swaps are executed inside the interposed stat/realpath/open/read call the
      model step corresponds to) and logs result class + content tag; spec/web/AssetTrace.tla judges every lookup (tag
      inside per the specification AND per the OS's realpath).
-  3. Self-tests: each deviation flag (no O_NOFOLLOW, containment on the unresolved candidate, containment by string
-     prefix) must make TLC violate Safe; a corrupted trace (tag of the secret) must be flagged; the tree built by the
-     driver must equal FS0.
+  3. Leaf kinds beyond file / directory / link (a named pipe, a link to it, a unix socket, a link to /dev/null in each
+     root; the driver's feeder thread opens the write end of a pipe as soon as the code under test holds its read end,
+     so a lookup that opens a pipe returns the pipe's tag instead of hanging) and HISTORIES: every valid sequence of
+     <= 3 operations {dirout: the intermediate directory <root>/dir is moved away and a link to the outside directory
+     takes its name, dirback, reload()} between consecutive lookups of the same name on ONE Assets object, in all four
+     modes, for every name whose resolution the dirout changes.  Every lookup of a history is judged against the tree
+     at the time of that lookup (model: `inside`; trace: dir = in | out; OS: walk of the root before the lookup).
+  4. Self-tests: each deviation flag (no O_NOFOLLOW, containment on the unresolved candidate, containment by string
+     prefix, no is_regular_file test, name -> resolved-path memo) must make TLC violate Safe; a corrupted trace (tag of
+     the secret; a history lookup returning the moved-out file) must be flagged; the tree built by the driver must
+     equal FS0.
 """
 import os, re, json, shutil, concurrent.futures as cf
 from collections import Counter, defaultdict
 import vf
 
 SPECDIR = os.path.join(vf.SPEC, "web")
-ACTIONS = ["Lex", "Exists", "Realpath", "ContainedStep", "IsReg", "CacheStep", "Open", "Read", "GzStat", "GzOpen", "SwapLeaf"]
-DEVS = ["Dev_NoNoFollow", "Dev_LexicalContainment", "Dev_PrefixContainment"]
-SPECIAL = {"DOTDOT", "DOT", "EMPTY", "link_in", "link_out", "dlink_out", "dlink_sib", "link_x", "PCT", "NUL", "BSL", "LONG", "ABS"}
+ACTIONS = ["Lex", "Exists", "Realpath", "ContainedStep", "IsReg", "CacheStep", "Open", "Read", "GzStat", "GzOpen", "SwapLeaf", "Between"]
+DEVS = ["Dev_NoNoFollow", "Dev_LexicalContainment", "Dev_PrefixContainment", "Dev_NoIsReg", "Dev_ResolveMemo"]
+SPECIAL = {"DOTDOT", "DOT", "EMPTY", "link_in", "link_out", "dlink_out", "dlink_sib", "link_x", "PCT", "NUL", "BSL", "LONG", "ABS",
+           "pipe", "link_pipe", "sock", "link_null"}
+NONREG = {"pipe", "link_pipe", "sock", "link_null"}
+HIST_DEFAULT = (["none"], [])
 
 
 def asset_cfg(ck, name, max_segs, max_swap, devs=(), emit=True):
     p = os.path.join(ck.work, name + ".cfg")
-    consts = {"MaxSegs": max_segs, "MaxSwapSegs": max_swap}
+    consts = {"MaxSegs": max_segs, "MaxSwapSegs": max_swap, "MaxHist": 3, "MaxHistSegs": min(3, max_segs)}
     for d in DEVS:
         consts[d] = d in devs
     vf.write_cfg(p, constants=consts, invariants=["Safe"] + (["Emit"] if emit else []))
@@ -70,15 +81,15 @@ def check_tree(ck):
     spec = set()
     for c in tlc_cases(r):
         for n in c:
-            if not n["p"]:
+            if not n["p"] or n["p"][0] == "dev":         # the machine's /dev/null is not part of the scratch tree
                 continue
-            spec.add(("/".join(n["p"]), {"dir": "d", "file": "f", "link": "l"}[n["k"]], n["tag"], "/".join(n["to"]) or "-"))
+            spec.add(("/".join(n["p"]), {"dir": "d", "file": "f", "link": "l", "fifo": "p", "sock": "s"}[n["k"]], n["tag"], "/".join(n["to"]) or "-"))
     rc, out = vf.run_driver("drv_assets", ["tree", "x"])
     drv = set()
     for ln in out.splitlines():
         w = ln.split()
         if len(w) == 4:
-            drv.add((w[0], w[1], int(w[2]), w[3]))
+            drv.add((w[0], "l" if w[1] == "L" else w[1], int(w[2]), w[3]))    # L: link to /<to> of the machine
     if spec != drv or not spec:
         raise vf.Infra("the tree of drv_assets.cpp differs from FS0 of AssetOps.tla: only in spec %s, only in driver %s" % (
             sorted(spec - drv)[:5], sorted(drv - spec)[:5]))
@@ -93,7 +104,7 @@ def to_case(c):
         rnd, pc = c["at"]
         fam, nth = hook_of(c["mode"], pc)
     return {"mode": c["mode"], "segs": c["segs"], "swap": c["swap"], "round": rnd, "fam": fam, "nth": nth,
-            "target": c["target"], "rounds": rounds}
+            "target": c["target"], "rounds": rounds, "hist": c["hist"]}
 
 
 def run_cases(ck, cases, name, shards=8):
@@ -132,6 +143,9 @@ def validate_sharded(ck, trace_path, nshards=8):
     n = len(lines)
     if n == 0:
         raise vf.Infra("empty trace")
+    pool = nshards
+    if n > 500000:
+        nshards = 3 * nshards            # keep a shard near the size TLC's Json module has been seen to take
     nshards = max(1, min(nshards, n // 500 + 1))
     jobs = []
     for s in range(nshards):
@@ -143,7 +157,7 @@ def validate_sharded(ck, trace_path, nshards=8):
 
     def go(j):
         return j, vf.validate_trace(mod, cfg, j[0], tag="C20_val", xmx="3g")
-    with cf.ThreadPoolExecutor(max_workers=nshards) as ex:
+    with cf.ThreadPoolExecutor(max_workers=min(pool, nshards)) as ex:
         res = list(ex.map(go, jobs))
     bad, wall = [], 0.0
     for (p, base), v in res:
@@ -175,17 +189,20 @@ def run(ck):
     thorough = ck.tier == "thorough"
     ck.make("drv_assets")
     max_segs = 4 if thorough else 3
-    ck.rule = ("every request name of <= %d segments over the 16-segment alphabet of AssetPath.tla x modes {filesystem cached, "
+    ck.rule = ("every request name of <= %d segments over the 20-segment alphabet of AssetPath.tla x modes {filesystem cached, "
                "per-request, embedded + EXTERNAL_DIR, templates} enumerated by TLC, plus every leaf-swap plan (resolved file, "
                "its .gz sibling, or the inside-pointing link the name ends in, replaced by a link to the secret right before "
-               "each file-system step of either round) for names of <= %d segments; non-trivial = the name contains a dot, "
-               "empty, link or hostile segment, or the case has a swap" % (max_segs, 3 if thorough else 2))
+               "each file-system step of either round) for names of <= %d segments, plus every history of <= 3 operations {<root>/dir "
+               "swapped for a link to the outside directory, swapped back, reload()} between lookups of one name on one Assets object "
+               "for every name (<= 3 segments) whose resolution the swap changes; the alphabet names a pipe, a link to it, a socket and "
+               "a link to /dev/null inside each root; non-trivial = the name contains a dot, empty, link, non-regular or hostile "
+               "segment, or the case has a swap or a history" % (max_segs, 3 if thorough else 2))
     check_tree(ck)
     mod = os.path.join(SPECDIR, "AssetPath.tla")
     max_swap = 3 if thorough else 2
-    jobs = {"gen": dict(cfg_path=asset_cfg(ck, "gen", max_segs, max_swap), workers=8 if thorough else 6, coverage=True, timeout=1500)}
+    jobs = {"gen": dict(cfg_path=asset_cfg(ck, "gen", max_segs, max_swap), workers=int(os.environ.get("C20_WORKERS", 8 if thorough else 4)), coverage=True, timeout=1500)}
     for d in DEVS:
-        jobs[d] = dict(cfg_path=asset_cfg(ck, d, 2, 2, [d], emit=False), workers=2)
+        jobs[d] = dict(cfg_path=asset_cfg(ck, d, 2, 2, [d], emit=False), workers=1)
 
     def go(k):
         kw = dict(jobs[k])
@@ -229,13 +246,23 @@ def run(ck):
         for sw in ("none", "leaf", "relink") + (("gz",) if mname != "templates" else ()):
             if kinds.get((mname, sw), 0) == 0:
                 raise vf.Infra("generator produced no case for mode %s swap %s" % (mname, sw))
-    ck.note("cases: %d (by swap kind: %s)" % (len(cases), dict(Counter(c["swap"] for c in cases))))
+    is_hist = lambda c: c["hist"] not in HIST_DEFAULT
+    hk = Counter((c["mode"], op) for c in cases if is_hist(c) for op in c["hist"])
+    for mname in ("fs_cached", "fs_perreq", "embedded_ext", "templates"):
+        for op in ("dirout", "dirback", "reload"):
+            if hk.get((mname, op), 0) == 0:
+                raise vf.Infra("generator produced no history with %s in mode %s" % (op, mname))
+        if not any(c["mode"] == mname and NONREG & set(c["segs"]) for c in cases):
+            raise vf.Infra("generator produced no name of a non-regular leaf in mode %s" % mname)
+    ck.note("cases: %d (by swap kind: %s; histories: %d over %d names)" % (
+        len(cases), dict(Counter(c["swap"] for c in cases)), sum(1 for c in cases if is_hist(c)),
+        len(set((c["mode"], tuple(c["segs"])) for c in cases if is_hist(c)))))
     outp, lines, bad, owner = judge(ck, cases, models, "assets")
     ck.evaluations += len(cases)
     ck.traces += len(cases) - len(set(owner[b - 1] for b in bad))
-    ck.nontrivial += sum(1 for c in cases if c["swap"] != "none" or any(s in SPECIAL for s in c["segs"]))
+    ck.nontrivial += sum(1 for c in cases if c["swap"] != "none" or is_hist(c) or any(s in SPECIAL for s in c["segs"]))
     # model drift / statistics
-    found = swapped = drift = exc = 0
+    found = swapped = drift = exc = outlk = outref = backfound = fed = 0
     first_of = {}
     for i, o in enumerate(owner):
         first_of.setdefault(o, i)
@@ -246,6 +273,14 @@ def run(ck):
             found += e["res"] == "found"
             exc += e["res"] == "exception"
             swapped += bool(e["swapped"]) and rr + 1 == c["round"]
+            fed += e["fed"]
+            if is_hist(c):
+                nout = sum(1 for op in c["hist"][:rr] if op == "dirout") - sum(1 for op in c["hist"][:rr] if op == "dirback")
+                if (e["dir"] == "out") != (nout == 1):
+                    raise vf.Infra("driver did not perform the history %s (round %d: dir=%s)" % (c["hist"], rr + 1, e["dir"]))
+                outlk += e["dir"] == "out"
+                outref += e["dir"] == "out" and e["res"] != "found" and m["outs"][0]["res"] == "found"
+                backfound += e["dir"] == "in" and rr > 0 and "dirback" in c["hist"][:rr] and e["res"] == "found"
             same = (e["res"] == "found") == (mo["res"] == "found") and (e["res"] != "found" or (e["tag"], e["gz"]) == (mo["tag"], mo["gz"]))
             if not same:
                 drift += 1
@@ -254,27 +289,40 @@ def run(ck):
     nswap = sum(1 for c in cases if c["swap"] != "none")
     ck.note("lookups: %d found, %d exceptions; swaps performed %d of %d planned; results differing from the Impl prediction: %d" % (
         found, exc, swapped, nswap, drift))
+    ck.note("histories: %d lookups with <root>/dir swapped for the outside link (%d of them of names found before the swap and "
+            "refused now), %d found again after the swap back; pipes opened by the code under test: %d" % (outlk, outref, backfound, fed))
     if found < 50 or (nswap and swapped < nswap // 2):
         raise vf.Infra("vacuous run: %d found, %d/%d swaps performed" % (found, swapped, nswap))
+    if outlk < 20 or backfound < 5 or (outref < 5 and not bad):
+        raise vf.Infra("vacuous histories: %d lookups in the swapped tree, %d refused there, %d found after swap back" % (outlk, outref, backfound))
     sw = next(i for i, c in enumerate(cases) if c["swap"] == "leaf" and c["fam"] == "open")
     ck.sample({"kind": "leaf swap before open()", "case": cases[sw], "model": models[sw]["outs"], "events": [json.loads(lines[first_of[sw] + k]) for k in range(cases[sw]["rounds"])]})
     tr = next(i for i, c in enumerate(cases) if "dlink_out" in c["segs"] and "a" in c["segs"])
     ck.sample({"kind": "name through an outside directory link", "case": cases[tr], "event": json.loads(lines[first_of[tr]])})
+    hs = next(i for i, c in enumerate(cases) if c["mode"] == "fs_perreq" and c["hist"] == ["dirout", "dirback", "dirout"] and c["segs"] == ["dir", "a"])
+    ck.sample({"kind": "history on one Assets object", "case": cases[hs], "model": models[hs]["outs"],
+               "events": [{k: v for k, v in json.loads(lines[first_of[hs] + k]).items() if k in ("round", "dir", "res", "tag", "gz", "os_in")} for k in range(cases[hs]["rounds"])]})
+    pp = next(i for i, c in enumerate(cases) if c["mode"] == "fs_cached" and c["segs"] == ["link_pipe"])
+    ck.sample({"kind": "name of a link to a named pipe inside the root", "case": cases[pp], "event": json.loads(lines[first_of[pp]])})
     # oracle self-test: the secret's tag must be flagged
     badset = set(bad)
     idx = next(i for i, ln in enumerate(lines) if '"res":"found"' in ln and (i + 1) not in badset)
     e = json.loads(lines[idx]); e["tag"] = 99
+    # ... and so must the tag of a file that has been moved out of the root by the time of the lookup, and a pipe's tag
+    idx2 = next(i for i, ln in enumerate(lines) if '"res":"found"' in ln and '"tag":2,' in ln and '"mode":"fs_perreq"' in ln and '"dir":"in"' in ln and (i + 1) not in badset)
+    e2 = json.loads(lines[idx2]); e2["dir"] = "out"
+    e3 = json.loads(lines[idx2]); e3["tag"] = 97
     p = os.path.join(ck.work, "selftest.ndjson")
-    open(p, "w").write(lines[idx] + "\n" + json.dumps(e) + "\n")
+    open(p, "w").write("\n".join([lines[idx], json.dumps(e), lines[idx2], json.dumps(e2), json.dumps(e3)]) + "\n")
     v = vf.validate_trace(os.path.join(SPECDIR, "AssetTrace.tla"), os.path.join(SPECDIR, "AssetTrace.cfg"), p, tag="C20_self")
-    if v.error or [int(x) for x in re.findall(r'<<"BAD", (\d+)>>', v.out)] != [2]:
-        raise vf.Infra("self-test: AssetTrace accepted a lookup that returns the secret (%s)" % (v.error or v.out[-300:]))
+    if v.error or sorted(int(x) for x in re.findall(r'<<"BAD", (\d+)>>', v.out)) != [2, 4, 5]:
+        raise vf.Infra("self-test: AssetTrace accepted a lookup that returns the secret / a moved-out file / a pipe (%s)" % (v.error or v.out[-300:]))
     # verdicts
     groups = defaultdict(list)
     for b in bad:
         c = cases[owner[b - 1]]
         e = json.loads(lines[b - 1])
-        groups[(c["mode"], c["swap"], c["fam"], e["tag"], e["gz"])].append(b)
+        groups[(c["mode"], c["swap"], c["fam"], e["tag"], e["gz"], e["dir"], tuple(c["hist"][:e["round"] - 1]) if is_hist(c) else ())].append(b)
     shown = 0
     for k, bs in sorted(groups.items(), key=lambda kv: -len(kv[1])):
         b = bs[0]
@@ -289,15 +337,19 @@ def run(ck):
             break
         rp = ck.save_replay("escape_%d" % shown, {"case.txt": json.dumps(c) + "\n", "events.ndjson": "\n".join(lines2) + "\n",
                                                  "why.txt": "AssetTrace: returned tag %s / gz %s is not that of a regular file inside the root of mode %s "
-                                                            "(99 = the secret); %d lookups in this group\n" % (k[3], k[4], k[0], len(bs))})
-        ck.violation("lookup returned content from outside its root: mode %s, name %s, swap %s before %s -> tag %s gz %s (%d lookups)" % (
-            c["mode"], "/".join(c["segs"]), c["swap"], c["fam"], k[3], k[4], len(bs)), rp)
+                                                            "at the time of the lookup (99 = the secret, 98 = outdir/a, 97/94 = the named pipes, -1 = no tag, "
+                                                            "e.g. /dev/null); %d lookups in this group\n" % (k[3], k[4], k[0], len(bs))})
+        ck.violation("lookup returned bytes that are not those of a regular file inside its root at the time of the lookup: mode %s, "
+                     "name %s, swap %s before %s, history before the lookup %s (<root>/dir %s) -> tag %s gz %s (%d lookups)" % (
+            c["mode"], "/".join(c["segs"]), c["swap"], c["fam"], list(k[6]), k[5], k[3], k[4], len(bs)), rp)
     ck.assumptions += [
         "the oracle demands containment only (the bytes returned are those of SOME regular file inside the root of the mode, by "
         "the specification's FS0 and by the OS's realpath); which inside file is served is reported as model drift, not judged",
         "an exception escaping getStatic/getTemplate counts as a refusal",
-        "only the final component (the resolved file, its .gz sibling, or the link the request ends in) is swapped during a "
-        "lookup, as the statement says; intermediate-directory swaps are the documented residual of assets.hpp",
+        "only the final component (the resolved file, its .gz sibling, or the link the request ends in) is swapped DURING a "
+        "lookup, as the statement says; intermediate-directory swaps during a lookup are the documented residual of assets.hpp; "
+        "BETWEEN two lookups of one Assets object the intermediate directory is swapped and every lookup is judged against the "
+        "tree it started on (cached bytes of a file that has been moved out of the root count as outside content)",
         "embedded mode: every requested name is registered as an EXTERNAL path so that the guarded EXTERNAL_DIR read is reached"]
 
 
